@@ -18,10 +18,11 @@ per channel, per connection list), then asks for round trips:
     conn <id> <d|s> <i|o> <child> <chan> (<child> <chan>)*   one connection list of composite <id>
     build <id>            current graph := the tree below <id>, a root
     descend <label>       current graph := that child, to be pickled on its own
-    pickle <cfg> <x> <o>  round trip; <cfg> = six 0/1 digits ⟨revIter, firing, pushIn, pushOut, pushFor, keepCache⟩,
+    view (<child> <chan>)*  the `_inputs` view the current (workflow) root carries, after `build`
+    pickle <cfg> <x> <o> <v>  round trip (v = the view is not stored); <cfg> = six 0/1 digits ⟨revIter, firing, pushIn, pushOut, pushFor, keepCache⟩,
                           x = foreign connections are not stored, o = load() takes the channels over;
                           prints the observation
-    fileload <cfg> <x> <o> [cls]
+    fileload <cfg> <x> <o> <v> [cls]
 -/
 
 structure Row where
@@ -42,8 +43,10 @@ structure St where
   cur : Option (Node × Option Path)
   /-- the current graph came out of the pinned `Node.load`: its channels belong to a twin -/
   haunted : Bool
+  /-- the `_inputs` view a workflow root carries (after `replace_child`), in panel order -/
+  view : List Addr
 
-def init : St := ⟨[], [], none, false⟩
+def init : St := ⟨[], [], none, false, []⟩
 
 def emptyCore (label cls : Nat) (kind : Kind) : Core :=
   { label, cls, kind, ins := [], outs := [], sigIns := [], sigOuts := [], received := [], running := false,
@@ -142,8 +145,12 @@ def finish (s : St) (haunted : Bool) : Except Err Node → St × List String
   | .error e => ({ s with cur := none }, [s!"error {showErr e}"])
 
 /-- one round trip of the current graph; `x` = connections to non-siblings are not stored,
-`o` = `Node.load` takes the channels over (no twin) -/
-def roundTrip (s : St) (cfg : Cfg) (x o : Bool) (file : Bool) (cls : Option Nat) : St × List String :=
+`o` = `Node.load` takes the channels over (no twin), `vw` = a workflow's IO view is not stored -/
+def roundTrip (s : St) (cfg : Cfg) (x o vw : Bool) (file : Bool) (cls : Option Nat) : St × List String :=
+  let wipe (r : Except Err Node) : Except Err Node :=
+    match r with
+    | .ok g => .ok (if vw then g else wipeView s.view g)
+    | .error e => .error e
   match s.cur with
   | none => (s, ["bad-op"])
   | some (n, pp) =>
@@ -153,8 +160,9 @@ def roundTrip (s : St) (cfg : Cfg) (x o : Bool) (file : Bool) (cls : Option Nat)
     match twinOk with
     | .error e => finish s false (.error e)
     | .ok _ =>
-      if file then finish s (!o) (fileLoad cfg (cls.getD n.core.cls) (save pp n))
-      else finish s s.haunted (load cfg (save pp n))
+      if !dumpable n then finish s false (.error .key) else
+      if file then finish s (!o) (wipe (fileLoad cfg (cls.getD n.core.cls) (save pp n)))
+      else finish s s.haunted (wipe (load cfg (save pp n)))
 
 def chanOp (s : St) (io : String) (id label val strict : String) : St × List String :=
   let bad : St × List String := (s, ["bad-op"])
@@ -239,27 +247,31 @@ def step (s : St) (ws : List String) : St × List String :=
   | "det" :: id :: ls => listOp s "det" id ls
   | ["build", id] =>
     match id.toNat?.bind (buildNode s) with
-    | some n => ({ s with cur := some (n, none), haunted := false }, ["built"])
+    | some n => ({ s with cur := some (n, none), haunted := false, view := [] }, ["built"])
     | none => bad
   | ["descend", l] =>
     match l.toNat?, s.cur with
     | some l, some (.mk c ch _ _, pp) =>
       match ch.find? fun n => n.core.label == l with
-      | some n => ({ s with cur := some (n, some (lexPath (c.forState pp).detached c.label)) }, ["descended"])
+      | some n => ({ s with cur := some (n, some (lexPath (c.forState pp).detached c.label)), view := [] }, ["descended"])
       | none => bad
     | _, _ => bad
-  | ["pickle", w, x, o] =>
-    match parseCfg w, parseBool x, parseBool o with
-    | some cfg, some x, some o => roundTrip s cfg x o false none
-    | _, _, _ => bad
-  | ["fileload", w, x, o] =>
-    match parseCfg w, parseBool x, parseBool o with
-    | some cfg, some x, some o => roundTrip s cfg x o true none
-    | _, _, _ => bad
-  | ["fileload", w, x, o, cls] =>
-    match parseCfg w, parseBool x, parseBool o, cls.toNat? with
-    | some cfg, some x, some o, some cls => roundTrip s cfg x o true (some cls)
+  | ["pickle", w, x, o, vw] =>
+    match parseCfg w, parseBool x, parseBool o, parseBool vw with
+    | some cfg, some x, some o, some vw => roundTrip s cfg x o vw false none
     | _, _, _, _ => bad
+  | ["fileload", w, x, o, vw] =>
+    match parseCfg w, parseBool x, parseBool o, parseBool vw with
+    | some cfg, some x, some o, some vw => roundTrip s cfg x o vw true none
+    | _, _, _, _ => bad
+  | ["fileload", w, x, o, vw, cls] =>
+    match parseCfg w, parseBool x, parseBool o, parseBool vw, cls.toNat? with
+    | some cfg, some x, some o, some vw, some cls => roundTrip s cfg x o vw true (some cls)
+    | _, _, _, _, _ => bad
+  | "view" :: ls =>
+    match (nats ls).bind pairsOf with
+    | some v => ({ s with view := v }, [])
+    | none => bad
   | _ => bad
 
 def main : IO Unit := Proto.run init step
